@@ -55,6 +55,8 @@ rv('T1', r'ConvertUnitSection::<\'a, R>::read_unit\|', 'invariant',
 rv('T1', r"(ConvertUnit|FilterUnit)::<'a, R>::read_entry\|err\|\?read_entry", 'invariant',
    INV + 'reached only after `is_empty()` returned false, and EntriesRaw::read_entry starts with read_uleb128, which consumes at least one byte of a non-empty reader even when it '
    'fails (confirmed by findings/demo/tests/convert_read_entry_spins.rs: the error-skipping loop ends for all 65536 truncations tried)')
+rv('T4', r'^write::unit::Unit::add_reserved\|loop', 'invariant', 'counter loop: entries.len() grows by one push per iteration until it reaches self.reserved (an in-memory count)')
+rv('T4', r"^write::unit::convert::ConvertUnitSection::<'a, R>::new_with_filter\|loop#2", 'invariant', 'index loop: `end` increases by one per iteration and the loop ends when offsets.get(end) is None')
 # ---- T3 -----------------------------------------------------------------------------------
 rv('T3', r'^read::dwarf::Dwarf::<T>::borrow <-> ', 'invariant',
    INV + 'recursion follows the `sup` chain of Arc<Dwarf> objects that the caller linked with set_sup; its depth is the number of files, not input bytes')
